@@ -34,7 +34,7 @@ case "$ID" in
     if ! go build -tags "verif sched" -overlay "$BUILD/sched/overlay.json" -o "$BIN/check-sched" ./cmd/check 2>"$BUILD/build.err"; then
       echo "BUILD FAILED (schedule-controlled harness against /repo working tree):"; cat "$BUILD/build.err"; exit 2
     fi
-    if [ "$ID" = "C16" ]; then
+    if [ "$ID" = "C16" ] || [ "$ID" = "C04" ]; then
       if ! go build -race -tags "verif sched" -overlay "$BUILD/sched/overlay.json" -o "$BIN/check-race" ./cmd/check 2>"$BUILD/build.err"; then
         echo "BUILD FAILED (race build):"; cat "$BUILD/build.err"; exit 2
       fi
